@@ -916,10 +916,17 @@ func (p *queryPlan) projectAndGroupBy() error {
 			}
 		})
 		p.tbl.AddBindings(p.stm.OutputBindings())
-		// For each row, copy each input binding value to its appropriate alias.
-		for _, prj := range p.stm.Projections() {
-			for _, row := range p.tbl.Rows() {
-				row[prj.Alias] = row[prj.Binding]
+		// For each row, copy each input binding value to its appropriate alias. All the
+		// values are read before any alias is written: an alias may have the name of a
+		// binding that another projection still has to read (SELECT ?s AS ?o, ?o AS ?v).
+		prjs := p.stm.Projections()
+		vals := make([]*table.Cell, len(prjs))
+		for _, row := range p.tbl.Rows() {
+			for i, prj := range prjs {
+				vals[i] = row[prj.Binding]
+			}
+			for i, prj := range prjs {
+				row[prj.Alias] = vals[i]
 			}
 		}
 		outputBindings := p.stm.OutputBindings()
